@@ -27,6 +27,35 @@ inductive Val where
   | exc : String → Val
 deriving Repr, BEq, Inhabited
 
+mutual
+/-- structural equality of wire values (the derived `BEq` of a nested inductive has no usable lemmas) -/
+def Val.eqb : Val → Val → Bool
+  | .str a, .str b => a == b
+  | .int a, .int b => a == b
+  | .list a, .list b => Val.eqbList a b
+  | .none, .none => true
+  | .bool a, .bool b => a == b
+  | .exc a, .exc b => a == b
+  | _, _ => false
+def Val.eqbList : List Val → List Val → Bool
+  | [], [] => true
+  | a :: as, b :: bs => Val.eqb a b && Val.eqbList as bs
+  | _, _ => false
+end
+
+mutual
+theorem Val.eqb_refl : ∀ v : Val, Val.eqb v v = true
+  | .str a => by simp [Val.eqb]
+  | .int a => by simp [Val.eqb]
+  | .list a => by simp only [Val.eqb]; exact Val.eqbList_refl a
+  | .none => by simp [Val.eqb]
+  | .bool a => by simp [Val.eqb]
+  | .exc a => by simp [Val.eqb]
+theorem Val.eqbList_refl : ∀ vs : List Val, Val.eqbList vs vs = true
+  | [] => by simp [Val.eqbList]
+  | a :: as => by simp only [Val.eqbList, Val.eqb_refl a, Val.eqbList_refl as, Bool.and_self]
+end
+
 def hexDigit (n : Nat) : Char := if n < 10 then Char.ofNat (48 + n) else Char.ofNat (87 + n)
 
 def hexOfNat (n : Nat) : String := String.ofList (Nat.toDigits 16 n)
